@@ -4,7 +4,7 @@
 set -e
 cd "$(dirname "$0")/.."
 what="${1:-all}"
-mkdir -p build/main build/cdp
+mkdir -p build/main build/cdp build/gen
 if [ "$what" = main ] || [ "$what" = all ]; then
   cd build/main
   timeout 900 coqc -Q ../../coq PGM ../../coq/Extract/Extract.v >extract.log 2>&1 || { cat extract.log; exit 1; }
@@ -30,5 +30,13 @@ if [ "$what" = cdp ] || [ "$what" = all ]; then
   timeout 600 coqc -Q ../../coq PGM ../../coq/Extract/ExtractCdp.v >extract.log 2>&1 || { cat extract.log; exit 1; }
   cp ../../ocaml/cdp/cdp_main.ml .
   timeout 600 ocamlfind ocamlopt -w -a cdp_model.mli cdp_model.ml cdp_main.ml -o ../cdprun 2>build.log || { cat build.log; exit 1; }
+  cd ../..
+fi
+if [ "$what" = gen ] || [ "$what" = all ]; then
+  cd build/gen
+  rm -f ../genrun
+  timeout 600 coqc -Q ../../coq PGM ../../coq/Extract/ExtractGen.v >extract.log 2>&1 || { cat extract.log; exit 1; }
+  cp ../../ocaml/gen/gen_main.ml .
+  timeout 600 ocamlfind ocamlopt -w -a gen_model.mli gen_model.ml gen_main.ml -o ../genrun 2>build.log || { cat build.log; exit 1; }
   cd ../..
 fi
